@@ -143,6 +143,20 @@ def check(pid, tier, seed):
                 for a in axs:
                     if a not in L.ALLOWED_AXIOMS:
                         bad_axioms.append("%s depends on %s" % (t, a))
+        # thorough tier: the independent checker re-checks the compiled theorems and everything they depend on
+        coqchk = None
+        if tier == "thorough" and rprops["ok"]:
+            args = ["coqchk", "-o", "-silent"]
+            for d in ("Model", "Gen", "Spec", "Proofs", "Props", "Extract"):
+                args += ["-Q", os.path.join(L.COQ, d), d]
+            rcc, outc, errc = L.sh(args + ["Props.%s" % pid] + ["Props.%s" % x for x in P.get("extra_props", [])], timeout=3000, cwd=L.COQ)
+            text = outc + errc
+            m = re.search(r"\* Axioms:(.*?)\n\s*\n\* Constants/Inductives relying on type-in-type:(.*?)\n", text, re.S)
+            axl = [a.strip() for a in (m.group(1).split("\n") if m else []) if a.strip() and a.strip() != "<none>"]
+            coqchk = {"exit": rcc, "axioms": axl, "type_in_type": (m.group(2).strip() if m else "?")}
+            bad = [a for a in axl if not any(a.startswith("Coq.") and a.split(".")[-1] == al.split(".")[-1] for al in L.ALLOWED_AXIOMS)]
+            if rcc != 0 or bad:
+                bad_axioms.append("coqchk: exit %d, axioms outside the allowlist: %s" % (rcc, bad[:5]))
         proof_ok = rprops["ok"] and not audit and assum is not None and not bad_axioms and tb["ok"]
         report["proof_ok"] = proof_ok
         # 4. extracted model
@@ -299,6 +313,7 @@ def check(pid, tier, seed):
                "case_kinds": kinds,
                "samples": samples[:8],
                "exhaustive": bool(P.get("exhaustive", False)),
+               "coqchk": coqchk,
                "tables_regenerated": tb["ok"], "interface_translated": iface["ok"], "hooks": hooks,
                "profiles": ["debug"] + (["release"] if need_release else []),
                "known_findings_replayed": len(kf_lines),
